@@ -334,6 +334,14 @@ Proof.
   - exists 0%nat. simpl. auto.
 Qed.
 
+(* the code as translated asks the store only: exact, no proviso. Instantiated in Properties/C13.v with the
+   generated flag and eq_refl, so it stops type-checking if the in-memory shortcut comes back. *)
+Lemma pending_query_exact_store_only : forall flag : bool, flag = false ->
+  forall p t b st i tx key,
+    has_jobs (mkCfg p t b flag) st i tx key false = true <->
+    exists r, In r (visible st tx) /\ rkey r = key /\ rcap r = None.
+Proof. intros flag Hf p t b st i tx key. apply pending_query_exact. left. exact Hf. Qed.
+
 (* what holds for the variant the code was translated to (flag = Gen/SchedQuery.v query_uses_memory) *)
 Lemma pending_query_status : forall flag : bool,
   (flag = false /\ forall p t b st i tx key,
